@@ -745,4 +745,129 @@ theorem exploreSt_spec (N : Nfa) (hN : N.WF) (U : List (List Nat)) (hU : ∀ l, 
         simp only [hkeyfin, Array.size_modify]
         exact this
 
+/-! ### running the compiled automaton -/
+
+/-- the set of NFA nodes after reading `w` from the set `S` (one letter edge, then `null_from`) -/
+def RunSet (N : Nfa) : (Nat → Prop) → List Nat → Nat → Prop
+  | S, [] => S
+  | S, t :: w =>
+    RunSet N (fun m => ∃ n, S n ∧ ∃ e, e ∈ N.getD n [] ∧ e.1 = some t ∧ m ∈ nullFrom N e.2) w
+
+theorem RunSet.congr (N : Nfa) {S S' : Nat → Prop} (h : ∀ m, S m ↔ S' m) (w : List Nat) (m : Nat) :
+    RunSet N S w m ↔ RunSet N S' w m := by
+  induction w generalizing S S' with
+  | nil => exact h m
+  | cons t w ih =>
+    unfold RunSet
+    apply ih
+    intro m'
+    constructor
+    · rintro ⟨n, hn, rest⟩; exact ⟨n, (h n).1 hn, rest⟩
+    · rintro ⟨n, hn, rest⟩; exact ⟨n, (h n).2 hn, rest⟩
+
+theorem RunSet.empty (N : Nfa) {S : Nat → Prop} (h : ∀ m, ¬ S m) (w : List Nat) (m : Nat) : ¬ RunSet N S w m := by
+  induction w generalizing S with
+  | nil => exact h m
+  | cons t w ih =>
+    unfold RunSet
+    apply ih
+    rintro m' ⟨n, hn, _⟩
+    exact h n hn
+
+theorem run_spec (N : Nfa) (st : DSt) (hall : ∀ i, i < st.states.size → Good N st i) (w : List Nat) :
+    ∀ i, i < st.states.size → st.key i ≠ [] →
+      match Dfa.run st.states i w with
+      | some q => q < st.states.size ∧ st.key q ≠ [] ∧ ∀ m, m ∈ st.key q ↔ RunSet N (fun m => m ∈ st.key i) w m
+      | none => ∀ m, ¬ RunSet N (fun m => m ∈ st.key i) w m := by
+  induction w with
+  | nil => intro i hi hne; exact ⟨hi, hne, fun m => Iff.rfl⟩
+  | cons t w ih =>
+    intro i hi hne
+    unfold Dfa.run RunSet
+    have hg := hall i hi t
+    cases hm : Dfa.matchType st.states i t with
+    | none =>
+      rw [hm] at hg
+      simp only at hg ⊢
+      exact fun m => RunSet.empty N hg w m
+    | some j =>
+      rw [hm] at hg
+      simp only at hg ⊢
+      obtain ⟨hj, hmem, hjne⟩ := hg
+      have := ih j hj hjne
+      cases hr : Dfa.run st.states j w with
+      | none =>
+        rw [hr] at this
+        simp only at this ⊢
+        intro m hrun
+        exact this m ((RunSet.congr N (fun m' => (hmem m').symm) w m).1 hrun)
+      | some q =>
+        rw [hr] at this
+        simp only at this ⊢
+        obtain ⟨hq, hqne, hqmem⟩ := this
+        refine ⟨hq, hqne, fun m => ?_⟩
+        rw [hqmem m]
+        exact RunSet.congr N hmem w m
+
+/-- what `dfa(nfa)` returns -/
+theorem dfa_spec (N : Nfa) (hN : N.WF) :
+    ∃ st : DSt, dfa N = st.states ∧ DInv N st ∧ 0 < st.states.size ∧ st.key 0 = nullFrom N 0 ∧
+      ∀ i, i < st.states.size → Good N st i := by
+  have hU : ∀ l, Canon N.size l → l ∈ keyUniverse N.size (nullFrom N 0) := fun l h => canon_mem_universe _ _ _ h
+  have hinv0 : DInv N ⟨[], #[]⟩ := ⟨by simp, by intro i s hs; simp at hs⟩
+  have hrem : remaining (keyUniverse N.size (nullFrom N 0)) (DSt.keys ⟨[], #[]⟩) ≤ exploreFuel N := by
+    have := List.countP_le_length (p := fun k => !(DSt.keys ⟨[], #[]⟩).contains k)
+      (l := keyUniverse N.size (nullFrom N 0))
+    rw [length_keyUniverse] at this
+    unfold remaining exploreFuel
+    omega
+  have sp := exploreSt_spec N hN _ hU (exploreFuel N) (nullFrom N 0) ⟨[], #[]⟩ hinv0 hrem
+    (by simp [keyUniverse]) (by simp [DSt.keys])
+  refine ⟨(exploreSt N (exploreFuel N) (nullFrom N 0) ⟨[], #[]⟩).2, rfl, sp.inv, ?_, ?_, ?_⟩
+  · have := sp.lt; simp only [Array.size_empty] at this; exact this
+  · have := sp.key; simpa using this
+  · intro i hi; exact sp.good i (by simp) hi
+
+theorem dfa_validEnd (N : Nfa) (st : DSt) (hinv : DInv N st) (q : Nat) (hq : q < st.states.size) :
+    Dfa.validEnd st.states q = (st.key q).contains (N.size - 1) := by
+  unfold Dfa.validEnd
+  cases hs : st.states[q]? with
+  | none => rw [Array.getElem?_eq_none_iff] at hs; omega
+  | some s => exact hinv.valid q s hs
+
+/-- **stage 3**: the compiled automaton simulates the NFA: after `w` it is in a state exactly when some
+    (non-pass-through) NFA node is reached on `w`, and that state is a valid end exactly when the accepting
+    node (the last one) is reached -/
+theorem dfa_simulates (N : Nfa) (hN : N.WF) (hstart : nullFrom N 0 ≠ []) (w : List Nat) :
+    ((dfa N).accepts w = true ↔ RunSet N (fun m => m ∈ nullFrom N 0) w (N.size - 1)) ∧
+    (((dfa N).run 0 w).isSome = true ↔ ∃ m, RunSet N (fun m => m ∈ nullFrom N 0) w m) := by
+  obtain ⟨st, hd, hinv, h0, hk0, hall⟩ := dfa_spec N hN
+  rw [hd]
+  have := run_spec N st hall w 0 h0 (by rw [hk0]; exact hstart)
+  unfold Dfa.accepts
+  rw [hk0] at this
+  cases hr : Dfa.run st.states 0 w with
+  | none =>
+    rw [hr] at this
+    simp only at this
+    constructor
+    · constructor
+      · intro h; simp at h
+      · intro h; exact absurd h (this _)
+    · constructor
+      · intro h; simp at h
+      · rintro ⟨m, hm⟩; exact absurd hm (this m)
+  | some q =>
+    rw [hr] at this
+    simp only at this
+    obtain ⟨hq, hqne, hmem⟩ := this
+    constructor
+    · simp only
+      rw [dfa_validEnd N st hinv q hq, List.contains_eq_mem, decide_eq_true_eq]
+      exact hmem _
+    · simp only [Option.isSome_some, true_iff]
+      cases hkq : st.key q with
+      | nil => exact absurd hkq hqne
+      | cons a l => exact ⟨a, (hmem a).1 (by rw [hkq]; simp)⟩
+
 end PM
